@@ -104,8 +104,11 @@ def postorder(node, reg, out):
         inner = child
         while inner[0] == "paren":
             inner = inner[1]
-        if node[1] in ("+", "-") and inner[0] == "num":
-            v = float(inner[1])
+        if node[1] in ("+", "-") and inner[0] in ("num", "hex"):
+            if inner[0] == "hex":
+                v = float(int(inner[1][1:], 16) if inner[1][0] == "$" else int(inner[1], 16))
+            else:
+                v = float(inner[1])
             if node[1] == "-":
                 v = -f32(v)
             out.append("PUSH " + fmt_g(v))
